@@ -181,6 +181,26 @@ def check_tree(case):
             return ("post.direction", f"{case!r}: {n} has direction {gd}, expected {d}", w)
     if m.bundles:
         return ("post.bundle-left", f"{case!r}: bundle instance still present after elaboration", w)
+    # the SAME bundle definition (its nested sub-instances are shared objects) instantiated again in this process with
+    # the opposite flip on a peer module: the rule applies to each instantiation on its own
+    if port and how in ("ctor", "func"):
+        bi2 = B(port=True, role=getattr(roles, role) if role else None, flipped=not flipped)
+        m2 = h.Module(name="C10Peer")
+        m2.add(bi2, name="bb")
+        want2 = expected_leaves(tree, True, 0 if flipped else 1, role)
+        try:
+            h.elaborate(m2)
+        except Exception as e:
+            return (f"elaborate.raises.{type(e).__name__}", f"{case!r} (peer, opposite flip): {type(e).__name__}: "
+                                                            f"{str(e)[-150:]}", w)
+        for p_, (width, vis, d) in want2.items():
+            n = "bb_" + "_".join(p_)
+            s2 = m2.ports.get(n)
+            if s2 is None:
+                return ("post.names", f"{case!r}: peer instantiation lacks port {n}", w)
+            if s2.direction.name != d:
+                return ("post.direction", f"{case!r}: second instantiation of the same definition with the opposite flip: "
+                                          f"{n} has direction {s2.direction.name}, expected {d}", w)
     return None
 
 
